@@ -3993,8 +3993,9 @@ fn add_answer_of_service(
     qtype: RRType,
     intf_addrs: Vec<IpAddr>,
 ) {
+    let mut srv_added = false;
     if qtype == RRType::SRV || qtype == RRType::ANY {
-        out.add_answer(
+        srv_added = out.add_answer(
             msg,
             DnsSrv::new(
                 entry_name,
@@ -4020,7 +4021,8 @@ fn add_answer_of_service(
         );
     }
 
-    if qtype == RRType::SRV {
+    // The addresses are additionals of the SRV answer: a suppressed SRV brings none.
+    if qtype == RRType::SRV && srv_added {
         for address in intf_addrs {
             out.add_additional_answer(DnsAddress::new(
                 service.get_hostname(),
